@@ -299,15 +299,6 @@ func c12Run(f *Fixture, c *c12Case) []Discrepancy {
 	}
 	werr := cl.WriteChunks(c.Stream, c.Cuts, time.Duration(c.Pause)*time.Microsecond)
 	_ = werr // the proxy may close while we are still writing: that is one of the allowed outcomes
-	if unreadProbe {
-		// the offender is alive but still not reading: everybody else must be served meanwhile
-		time.Sleep(300 * time.Millisecond)
-		if err := f.Witness(8 * time.Second); err != nil {
-			ds = append(ds, disc("C12/bystander-disturbed", "while the proxy was closing an offender that had not read %d big replies and still was not reading, a fresh client was not served within 8 s: %v (offender sent %s after the unread requests)", c.Unread, err, q(c.Stream)))
-		}
-		cl.StartReading()
-	}
-
 	offending := rest == refmodel.ReqProtoError || rest == refmodel.ReqInline
 	resolved := func() (bool, string) {
 		st := cl.Snapshot()
@@ -324,6 +315,31 @@ func c12Run(f *Fixture, c *c12Case) []Discrepancy {
 		}
 		return false, fmt.Sprintf("%d replies, open", len(st.Replies))
 	}
+	if unreadProbe {
+		// the offender is alive but still not reading: everybody else must be served meanwhile
+		time.Sleep(300 * time.Millisecond)
+		if err := f.Witness(8 * time.Second); err != nil {
+			// once more, generously, and only with a harness that is not itself starved: a proxy that is stuck
+			// stays stuck for as long as the offender does not read
+			err = f.Witness(30 * time.Second)
+			if err != nil && !harnessStarvedWithin(40*time.Second) {
+				ds = append(ds, disc("C12/bystander-disturbed", "while the proxy was closing an offender that had not read %d big replies and still was not reading, a fresh client was not served within 38 s: %v (offender sent %s after the unread requests)", c.Unread, err, q(c.Stream)))
+			} else if err != nil {
+				evidence.For("C12").Add("unread_offender_probes_discarded_machine_overloaded", 1)
+			}
+		}
+		cl.StartReading()
+		// the offender's fate (error reply or close) lies behind megabytes it now reads: wait while bytes arrive
+		for last, idle := -1, time.Now(); time.Since(idle) < 10*time.Second; time.Sleep(20 * time.Millisecond) {
+			if ok, _ := resolved(); ok {
+				break
+			}
+			if t := cl.Snapshot().Total; t != last {
+				last, idle = t, time.Now()
+			}
+		}
+	}
+
 	if offending {
 		deadline := time.Now().Add(3 * time.Second)
 		for time.Now().Before(deadline) {
